@@ -130,7 +130,7 @@ func C09(r *core.Run) {
 				args = append(args, "--shim-path=shim", "--shim-websockets=true")
 			}
 			if cfg.sess {
-				args = append(args, "--session-cookie-name=SID", "--disable-ssl-for-test=true")
+				args = append(args, "--session-cookie-name=SID", "--disable-ssl-for-test=true", "--debug=true")
 			}
 			agent, err := startAgent(r, agentBin, fmt.Sprintf("agent%d", ci), md, px.URL(), backend.Srv.Addr(), fmt.Sprintf("b9-%d", ci), args...)
 			if err != nil {
@@ -195,7 +195,8 @@ func C09(r *core.Run) {
 					k := rng.Intn(8)
 					conn = []string{"user-id", "close+user-id", "keep-alive+user-id", "authorization", "keep-alive,user-id(no-space)", "close,tab,user-id", "two-fields", "user-id+other"}[k]
 					c.ConnNominated = true
-					name := []string{"Connection", "connection"}[rng.Intn(2)]
+					// (the legacy Proxy-Connection field is not a nomination; it must not be honoured as one either)
+					name := []string{"Connection", "connection", "Connection", "Proxy-Connection"}[rng.Intn(4)]
 					if k == 6 {
 						c.Fields = append(c.Fields, rawhttp.Field{Name: name, Value: "keep-alive"}, rawhttp.Field{Name: "Connection", Value: "x-inverting-proxy-user-id"})
 					} else {
@@ -203,6 +204,12 @@ func C09(r *core.Run) {
 							Value: []string{"X-Inverting-Proxy-User-ID", "close, x-inverting-proxy-user-id", "keep-alive, X-Inverting-Proxy-User-Id", "Authorization",
 								"keep-alive,X-Inverting-Proxy-User-ID", "close ,\tX-INVERTING-PROXY-USER-ID", "", "x-inverting-proxy-user-id , X-Other-" + tok}[k]})
 					}
+				}
+				if conn == "none" && (i%9 == 3 || i%9 == 4) {
+					// the legacy spelling, on shim opens (i divisible by 3) and plain requests alike
+					conn = "proxy-connection+user-id"
+					c.ConnNominated = true
+					c.Fields = append(c.Fields, rawhttp.Field{Name: []string{"Proxy-Connection", "proxy-connection"}[i%2], Value: []string{"X-Inverting-Proxy-User-ID", "keep-alive, x-inverting-proxy-user-id", "Authorization, X-Inverting-Proxy-User-Id"}[(i/9)%3]})
 				}
 				if !c.Shim && i%6 == 2 {
 					c.Trailers = true
